@@ -144,13 +144,24 @@ def optMax2 : Option Rat → Option Rat → Option Rat
   | some a, some b => some (if a ≤ b then b else a)
   | _, _ => none
 
+/-- maximum / minimum where an infinite side is simply absent (`lb_max_array`: the largest lower bound, `-inf` ignored;
+`ub_min_array`: the smallest upper bound, `+inf` ignored) -/
+def optMaxI : Option Rat → Option Rat → Option Rat
+  | some a, some b => some (if a ≤ b then b else a)
+  | some a, none => some a
+  | none, b => b
+def optMinI : Option Rat → Option Rat → Option Rat
+  | some a, some b => some (if a ≤ b then a else b)
+  | some a, none => some a
+  | none, b => b
+
 /-- `common_type`: integer variable, or fixed at an integer value -/
 def intLike (i : VarInfo) : Bool := i.isInt || (i.isFixed && isIntQ i.fixedVal)
 
 def lbMax (B : Bnds) : List Var → Option Rat      -- lb_max_array
   | [] => none
   | [a] => (B a).lb
-  | a :: t => optMax2 (B a).lb (lbMax B t)
+  | a :: t => optMaxI (B a).lb (lbMax B t)
 def ubMax (B : Bnds) : List Var → Option Rat      -- ub_array
   | [] => none
   | [a] => (B a).ub
@@ -162,7 +173,7 @@ def lbMin (B : Bnds) : List Var → Option Rat      -- lb_array
 def ubMin (B : Bnds) : List Var → Option Rat      -- ub_min_array
   | [] => none
   | [a] => (B a).ub
-  | a :: t => optMin2 (B a).ub (ubMin B t)
+  | a :: t => optMinI (B a).ub (ubMin B t)
 
 def resBnd (B : Bnds) : Fun → VarInfo
   | .affine [] c => { lb := some c, ub := some c, isInt := false }        -- MakeFixedVar
